@@ -86,7 +86,8 @@ class FileScanHelper:
             POGGER.debug("Scanning from: (stdin)")
             if verif_probe.ENABLED:
                 verif_probe.emit("file_begin", file="(stdin)", fix=False)
-            self.__scan_from_stdin(args, string_to_scan)
+            if not self.__scan_from_stdin(args, string_to_scan):
+                did_fail_any_file = True
             if verif_probe.ENABLED:
                 verif_probe.emit(
                     "file_end", file="(stdin)", fix=False, ok=True, fixed=False
@@ -126,7 +127,8 @@ class FileScanHelper:
 
     def __scan_from_stdin(
         self, args: argparse.Namespace, string_to_scan: Optional[str]
-    ) -> None:
+    ) -> bool:
+        did_succeed = True
         temporary_file = None
         scan_exception = None
         scan_id = "stdin" if string_to_scan is None else "in-memory"
@@ -143,7 +145,7 @@ class FileScanHelper:
                     for line in sys.stdin:
                         outfile.write(line)
 
-            self.__scan_specific_file(temporary_file, scan_id)
+            did_succeed = self.__scan_specific_file(temporary_file, scan_id)
 
         except IOError as this_exception:
             scan_exception = this_exception
@@ -158,6 +160,7 @@ class FileScanHelper:
                 ) from scan_exception
             except IOError as this_exception:
                 self.__handle_scan_error(scan_id, this_exception)
+        return did_succeed
 
     def __scan_specific_file(self, next_file: str, next_file_name: str) -> bool:
         try:
